@@ -530,6 +530,7 @@ func main() {
 	translateSerde(*repo, writeImp)
 	translateRecode(*repo, writeImp)
 	translatePrecompFull(*repo, writeImp)
+	translateMultiExpDriver(*repo, writeImp)
 	fmt.Println("extract: ok")
 }
 
